@@ -8,7 +8,7 @@ PROPERTY = 'C11'
 RULE = ('A real BP agent with a "forward" receive route and a transmit route receives a generated bundle from the '
         'independent RFC 9171 encoder: any multiset of previous-node, hop-count (limit/count on CBOR head boundaries), '
         'bundle-age and unknown extension blocks, CRC type per block, arbitrary unique block numbers with gaps, report '
-        'flags, creation time zero or in the past; the virtual clock is advanced by a drawn amount before the '
+        'flags, creation time zero, in the past or slightly in the future; the virtual clock is advanced by a drawn amount before the '
         'forwarding idle callback runs.  Oracle on the octets handed to the convergence layer, parsed by the '
         'independent decoder: primary block octet-identical to the received one, payload identical, exactly one '
         'Previous Node block naming this node, every Hop Count block limit unchanged and count+1, at most one Bundle Age '
@@ -18,7 +18,7 @@ RULE = ('A real BP agent with a "forward" receive route and a transmit route rec
 SHRINK_KEYS = ('bundles',)
 SHRINK_KINDS = ('list',)
 ASSUMPTIONS = [
-    'creation times are zero or not later than the virtual clock (a bundle from the future has no defined age)',
+    'for a creation time later than the virtual clock (sender clock ahead) only the well-formedness of the age block is judged',
     'the bundle fits the route MTU when one is configured (fragmentation is C05)',
 ]
 
@@ -65,7 +65,9 @@ def bundle_specs():
         'nums': st.lists(st.one_of(st.integers(2, 12), st.sampled_from([23, 24, 255, 256, 70000])), min_size=5, max_size=5, unique=True),
         'flags': strat.flag_sets(strat.REPORT_FLAGS + strat.OTHER_FLAGS + strat.UNASSIGNED_BUNDLE_FLAGS[:4]),
         'pcrc': st.sampled_from([0, 1, 2]), 'ycrc': st.sampled_from([0, 1, 2]),
-        'created_ago': st.one_of(st.none(), st.integers(0, 10 ** 7), st.sampled_from([0, 1, 23, 24, 255, 256, 65535, 65536])),
+        # negative: the creating node's clock is ahead of this node's (only well-formedness of the age is judged then)
+        'created_ago': st.one_of(st.none(), st.integers(0, 10 ** 7), st.sampled_from([0, 1, 23, 24, 255, 256, 65535, 65536]),
+                                 st.sampled_from([-1, -24, -500, -100000])),
         'seq': strat.uints(2 ** 32), 'lifetime': st.one_of(st.sampled_from([1, 1000, 3600000]), strat.uints()),
         'wait_ms': st.sampled_from([0, 0, 1, 999, 1000, 60000]),
         'payload': strat.payload_bytes(300).map(bytes.hex),
@@ -188,7 +190,9 @@ def forward_one(node, case, out):
     elif len(ages) == 1 and ctime != 0:
         try:
             age = r.parse_age(ages[0]['data'])
-            if age != now_at_forward - ctime:
+            if ctime > now_at_forward:
+                out.label('created-in-the-future')     # no defined age: it only has to be an unsigned integer
+            elif age != now_at_forward - ctime:
                 out.fail('bundle-age-value', 'Bundle Age is %d, time since creation is %d' % (age, now_at_forward - ctime))
         except Exception as exc:
             out.fail('bundle-age-undecodable', 'Bundle Age block undecodable: %s' % exc)
